@@ -1007,3 +1007,14 @@ Example C02_remote_example :
   recv_call (ms1 (CRemote (Some [82; 73]))) [WOpen OtMyRef [WInt 129 3 3]] [] = CViol /\
   recv_call (ms1 (CRemote None)) [WOpen OtMyRef [WInt 129 3 3]] [] = CInvoke [ORemote []] [].
 Proof. vm_compute. repeat split; reflexivity. Qed.
+
+(* a back-reference to a list that is STILL OPEN is checked against the members received so far (none): the answer
+   (list (reference <this list>) (list 1 2)) under ListOf(ListOf(int)) hands the callback l = [l, [1, 2]].  For calls the
+   final checkAllArgs sees the cycle and refuses (second part). *)
+Theorem result_refuted_open_reference :
+  let c := CList (CList (CInt (Some 1024)) None 0) None 0 in
+  let w := WOpen OtList [WRefOpen 0 (OList []); WOpen OtList [WInt 129 1 1; WInt 129 2 2]] in
+  recv_answer (Some c) w = Callback (OList [OPending 0; OList [OInt 1; OInt 2]]) /\
+  checkObject c (OList [OPending 0; OList [OInt 1; OInt 2]]) = false /\
+  recv_call (ms1 c) [w] [] = CViol.
+Proof. vm_compute. repeat split; reflexivity. Qed.
